@@ -91,7 +91,7 @@ Theorem reduction_ok_sound n G morphs :
   let deps := flat_map snd morphs in
   (forall p, ClL G p <-> ClL verts p) /\
   (forall d, In d deps -> ClL verts d) /\
-  length (dedup G) = (length verts + length (dedup deps))%nat /\
+  (length verts + length (dedup deps) <= length (dedup G) <= length verts + length deps)%nat /\
   NoDup verts /\
   length morphs = length (gen_components G) /\
   (forall m, In m morphs -> star_spec (fst m)).
@@ -102,7 +102,8 @@ Proof.
   - apply (closure_eq_sound n G _ HG HV). assumption.
   - apply (closure_eq_sound n G _ HG HV). assumption.
   - apply (all_in_closure_sound n _ _ HV HD). assumption.
-  - apply andb_true_iff in H3. destruct H3 as [H3 _]. apply Nat.eqb_eq. exact H3.
+  - apply andb_true_iff in H3. destruct H3 as [H3 _]. apply andb_true_iff in H3. destruct H3 as [H3 _]. apply Nat.leb_le. exact H3.
+  - apply andb_true_iff in H3. destruct H3 as [H3 _]. apply andb_true_iff in H3. destruct H3 as [_ H3]. apply Nat.leb_le. exact H3.
   - apply andb_true_iff in H3. destruct H3 as [_ H3]. apply nodupP_NoDup. exact H3.
   - apply andb_true_iff in H0. destruct H0 as [H0 _]. apply Nat.eqb_eq. exact H0.
   - intros m Hm. rewrite forallb_forall in H. apply star_ok_sound. apply H. exact Hm.
